@@ -6,6 +6,10 @@ import (
 	"encoding/json"
 	"fmt"
 	dtpb "github.com/google/fhir/go/proto/google/fhir/proto/r4/core/datatypes_go_proto"
+	opb "github.com/google/fhir/go/proto/google/fhir/proto/r4/core/resources/observation_go_proto"
+	orgpb "github.com/google/fhir/go/proto/google/fhir/proto/r4/core/resources/organization_go_proto"
+	ppb "github.com/google/fhir/go/proto/google/fhir/proto/r4/core/resources/patient_go_proto"
+	perpb "github.com/google/fhir/go/proto/google/fhir/proto/r4/core/resources/person_go_proto"
 	"github.com/verily-src/fhirpath-go/fhirpath/verifh/ftab"
 	"google.golang.org/protobuf/proto"
 	"google.golang.org/protobuf/reflect/protoreflect"
@@ -239,7 +243,8 @@ func init() {
 		"PatientWithContained": func() []fhir.Resource { return []fhir.Resource{lib.PatientWithContained()} },
 	}
 	evSrcs := []string{"Patient.name.where(use = 'official').given", "Bundle.entry.resource.name.select(given.first() & ' ' & family)", "now() > @2020-01-01T00:00:00Z and today() = now().toString().substring(0,10).toDate()",
-		"%v + 1", "Patient.name.given[%v]", "Patient.active and true", "Patient.active.not() or false", "Patient.contained.id", "Patient.contained.code.coding.code", "%col.where($this is Integer and $this > %v)", "%col.skip(1).select($this.toString()).exists($this = '2')", "Observation.value.value * 2", "Patient.name.given.distinct().count()", "iif(%context.id.exists(), %context.id, 'none')", "Patient.name.all(given.count() > 0) and Patient.telecom.rank.exists($this > 1)"}
+		"%v + 1", "Patient.name.given[%v]", "Patient.active and true", "Patient.active.not() or false", "Patient.contained.id", "Patient.contained.code.coding.code", "%col.where($this is Integer and $this > %v)", "%col.skip(1).select($this.toString()).exists($this = '2')", "Observation.value.value * 2", "Patient.name.given.distinct().count()", "iif(%context.id.exists(), %context.id, 'none')", "Patient.name.all(given.count() > 0) and Patient.telecom.rank.exists($this > 1)",
+		"Patient.children().join(',')", "Patient.name.given.join(' ')", "%col.join('-')"}
 	optNames := []string{"v=1", "v=2"}
 	// col: a caller-owned collection; the history shares one, the isolated reference gets a fresh one
 	newCol := func() system.Collection {
@@ -330,7 +335,7 @@ func init() {
 							got = "ERROR"
 						}
 						// the isolated result: a freshly compiled expression
-						fresh, _ := fhirpath.Compile(ev.src)
+						fresh, _ := c04Compile(ev.src)
 						wc, werr := fresh.Evaluate(resources[ev.res](), mkOpts(ev.opts, newCol())...)
 						want := lib.ShowColl(wc)
 						if werr != nil {
@@ -382,6 +387,34 @@ func init() {
 					if r.WantSample() {
 						r.Sample(core.W{"history": hist})
 					}
+				}},
+				{Name: "patch-expression-histories", N: c10Count(len(c04PatchOps()), evLen+1), Note: fmt.Sprintf("all sequences of length <=%d over %d FHIRPatch operations (Add / Delete / Replace / Insert on Patient, Person, Organization, Observation with either value[x] alternative) through compiled patch expressions that the history shares per path (type-less paths apply to several resource types): each outcome (error or not, resulting resource) equals the outcome of a freshly compiled expression", evLen+1, len(c04PatchOps())), Run: func(i int, r *core.Rec) {
+					ops := c04PatchOps()
+					seq := c10Seq(i, len(ops))
+					shared := map[string]*patch.Expression{}
+					var hist []string
+					for _, oi := range seq {
+						op := ops[oi]
+						hist = append(hist, op.name+" via "+op.path)
+						if shared[op.path] == nil {
+							e, err := patch.Compile(op.path)
+							if err != nil {
+								r.Fail("patch-history|path-does-not-compile", core.W{"path": op.path, "err": err.Error()})
+								return
+							}
+							shared[op.path] = e
+						}
+						got := c04PatchOutcome(op, shared[op.path])
+						fe, _ := patch.Compile(op.path)
+						want := c04PatchOutcome(op, fe)
+						r.Eval()
+						r.Eval()
+						if got != want {
+							r.Fail("patch-history|outcome-depends-on-history", core.W{"history": hist, "got": strings.SplitN(got, "|", 2)[0], "isolated": strings.SplitN(want, "|", 2)[0], "same_resource_afterwards": strings.SplitN(got+"|", "|", 3)[1] == strings.SplitN(want+"|", "|", 3)[1]})
+						}
+					}
+					r.State(fmt.Sprintf("patch-history|len=%d", len(seq)))
+					r.Nontrivial(strings.Join(hist, ";"))
 				}},
 				{Name: "inputs-edited-between-evaluations", N: len(c04EditPrograms), Note: fmt.Sprintf("%d programs x 4 inputs x 7 kinds of in-place edit by the owner of the resource (decimal texts, integers, strings, codes, booleans, dates/times, removal of the last item of every list): evaluate, edit the very same objects, evaluate again on a shared and on a fresh compiled expression - the result is the one a fresh copy of the edited resource gives", len(c04EditPrograms)), Run: func(i int, r *core.Rec) {
 					src := c04EditPrograms[i]
@@ -741,7 +774,7 @@ func c04EvReference(al []c04Ev, shared map[string]*fhirpath.Expression, resource
 	}
 	out := make([]string, len(al))
 	for i, ev := range al {
-		e, err := fhirpath.Compile(ev.src)
+		e, err := c04Compile(ev.src)
 		if err != nil {
 			out[i] = "COMPILE-ERROR"
 			continue
@@ -806,11 +839,92 @@ func c04TamperOpt(slots bool, in []fhir.Resource, coll system.Collection, alsoOw
 
 var c04Shared map[string]*fhirpath.Expression
 
+// c04Compile: the sources that use join() are compiled with the experimental functions
+func c04Compile(src string) (*fhirpath.Expression, error) {
+	if strings.Contains(src, ".join(") {
+		return fhirpath.Compile(src, compopts.WithExperimentalFuncs())
+	}
+	return fhirpath.Compile(src)
+}
+
+// ---- patch-expression histories: a compiled patch expression is configuration only
+
+type c04PatchOp struct {
+	name, path string
+	mk         func() fhir.Resource
+	do         func(e *patch.Expression, res fhir.Resource) error
+}
+
+func c04PatchOps() []c04PatchOp {
+	cp := func() *dtpb.ContactPoint { return &dtpb.ContactPoint{Value: fhir.String("555-0100")} }
+	patient := func() fhir.Resource {
+		p := lib.Patient()
+		p.Contact = []*ppb.Patient_Contact{{Name: lib.NameA()}, {Name: lib.NameB()}}
+		return p
+	}
+	org := func() fhir.Resource {
+		return &orgpb.Organization{Id: fhir.ID("o1"), Name: fhir.String("Org"), Contact: []*orgpb.Organization_Contact{{Name: lib.NameA()}}, Telecom: []*dtpb.ContactPoint{{Value: fhir.String("1")}},
+			Identifier: []*dtpb.Identifier{fhir.Identifier("http://s", "v")}}
+	}
+	person := func() fhir.Resource {
+		return &perpb.Person{Id: fhir.ID("pe1"), Name: []*dtpb.HumanName{lib.NameB(), lib.NameA()}, Telecom: []*dtpb.ContactPoint{{Value: fhir.String("2")}}}
+	}
+	obsQ := func() fhir.Resource { return lib.Observation() }
+	obsS := func() fhir.Resource {
+		o := lib.Observation()
+		o.Value = &opb.Observation_ValueX{Choice: &opb.Observation_ValueX_StringValue{StringValue: fhir.String("text")}}
+		return o
+	}
+	ext := func() *dtpb.Extension {
+		return &dtpb.Extension{Url: fhir.URI("http://x"), Value: &dtpb.Extension_ValueX{Choice: &dtpb.Extension_ValueX_Boolean{Boolean: fhir.Boolean(true)}}}
+	}
+	add := func(name string, v func() fhir.Base) func(*patch.Expression, fhir.Resource) error {
+		return func(e *patch.Expression, res fhir.Resource) error { return e.Add(res, name, v()) }
+	}
+	return []c04PatchOp{
+		{"Add telecom on Patient", "contact[0]", patient, add("telecom", func() fhir.Base { return cp() })},
+		{"Add telecom on Organization", "contact[0]", org, add("telecom", func() fhir.Base { return cp() })},
+		{"Add given on Patient", "name[0]", patient, add("given", func() fhir.Base { return fhir.String("Zed") })},
+		{"Add given on Person", "name[0]", person, add("given", func() fhir.Base { return fhir.String("Zed") })},
+		{"Delete on Patient", "name[0]", patient, func(e *patch.Expression, r fhir.Resource) error { return e.Delete(r) }},
+		{"Delete on Person", "name[0]", person, func(e *patch.Expression, r fhir.Resource) error { return e.Delete(r) }},
+		{"Replace family on Patient", "name[0].family", patient, func(e *patch.Expression, r fhir.Resource) error { return e.Replace(r, fhir.String("Omega")) }},
+		{"Replace family on Person", "name[0].family", person, func(e *patch.Expression, r fhir.Resource) error { return e.Replace(r, fhir.String("Omega")) }},
+		{"Add extension on valueQuantity", "Observation.value", obsQ, add("extension", func() fhir.Base { return ext() })},
+		{"Add extension on valueString", "Observation.value", obsS, add("extension", func() fhir.Base { return ext() })},
+		{"Insert telecom on Patient", "telecom", patient, func(e *patch.Expression, r fhir.Resource) error { return e.Insert(r, cp(), 0) }},
+		{"Insert telecom on Organization", "telecom", org, func(e *patch.Expression, r fhir.Resource) error { return e.Insert(r, cp(), 0) }},
+		{"Insert telecom on Person", "telecom", person, func(e *patch.Expression, r fhir.Resource) error { return e.Insert(r, cp(), 1) }},
+		{"Replace telecom on Organization", "telecom[0]", org, func(e *patch.Expression, r fhir.Resource) error { return e.Replace(r, cp()) }},
+		{"Replace telecom on Patient", "telecom[0]", patient, func(e *patch.Expression, r fhir.Resource) error { return e.Replace(r, cp()) }},
+		{"Add id on contact name of Organization", "contact[0].name", org, add("text", func() fhir.Base { return fhir.String("t") })},
+		{"Add text on contact name of Patient", "contact[0].name", patient, add("text", func() fhir.Base { return fhir.String("t") })},
+	}
+}
+
+func c04PatchOutcome(op c04PatchOp, e *patch.Expression) string {
+	res := op.mk()
+	var err error
+	if pi := core.Try(func() { err = op.do(e, res) }); pi != nil {
+		return "PANIC " + pi.Key()
+	}
+	h := c04Hash(finger04(res))
+	if err != nil {
+		return "error|" + h
+	}
+	return "ok|" + h
+}
+
+func finger04(m proto.Message) string {
+	b, _ := proto.MarshalOptions{Deterministic: true}.Marshal(m)
+	return string(b)
+}
+
 func c04SharedExprs(srcs []string) map[string]*fhirpath.Expression {
 	if c04Shared == nil {
 		c04Shared = map[string]*fhirpath.Expression{}
 		for _, s := range srcs {
-			if e, err := fhirpath.Compile(s); err == nil {
+			if e, err := c04Compile(s); err == nil {
 				c04Shared[s] = e
 			}
 		}
